@@ -85,10 +85,9 @@ class Ctx:
             if os.path.exists(dot):
                 with open(dot) as f:
                     for line in f:
-                        if "->" in line:
-                            m = re.search(r'label="(\w+)"', line)
-                            if m:
-                                cnt[m.group(1)] += 1
+                        m = re.match(r'^-?\d+ -> -?\d+ \[label="(\w+)', line)
+                        if m:
+                            cnt[m.group(1)] += 1
                 os.remove(dot)
             for k, v in cnt.items():
                 self.actions_covered[module + "." + k] = self.actions_covered.get(module + "." + k, 0) + v
@@ -303,13 +302,27 @@ def load_replay(path):
         return json.load(f)
 
 
-def build_events(ctx, inputs, start=0):
-    """inputs: iterable of (act, inp, class-key) -> events (executing the code)."""
+def _mk(args):
     from . import acts
-    events = []
-    for i, (a, inp, key) in enumerate(inputs):
-        ev = acts.make(a, inp, start + i)
-        events.append(ev)
+    a, inp, i = args
+    return acts.make(a, inp, i)
+
+
+def build_events(ctx, inputs, start=0, procs=None):
+    """inputs: iterable of (act, inp, class-key) -> events (executing the code under test).
+    Events are built in worker processes (fork) when there are many; each event is a pure
+    function of its input, so the result does not depend on the scheduling."""
+    inputs = list(inputs)
+    jobs = [(a, inp, start + i) for i, (a, inp, key) in enumerate(inputs)]
+    if procs is None:
+        procs = 16 if len(jobs) >= 64 else 1
+    if procs > 1:
+        import multiprocessing as mp
+        with mp.get_context("fork").Pool(procs) as pool:
+            events = pool.map(_mk, jobs, chunksize=max(1, len(jobs) // (procs * 8)))
+    else:
+        events = [_mk(j) for j in jobs]
+    for ev, (a, inp, key) in zip(events, inputs):
         ctx.keys[ev["id"]] = key
         ctx.nontriv((a,) + tuple(key) + (ev.get("res", {}).get("ok"),))
     return events
